@@ -25,7 +25,10 @@ pub mod tls { pub mod future {
     #[verifier::reject_recursive_types(T)]
     pub struct TlsConnectionFuture<T: Transport> { _p: std::marker::PhantomData<T> }
     impl<T: Transport> TlsConnectionFuture<T> {
-        /// ghost: the request the TLS connect future was created for
+        /// ghost: the future is going to dial (unit `tls`: its state is `Connecting`; otherwise it only reports an error)
+        pub uninterp spec fn dials(&self) -> bool;
+        /// ghost: the request the inner transport is asked to connect for (unit `tls`: `T::dialed(&state.future)`; meaningful
+        /// while `dials()`)
         pub uninterp spec fn tls_for(&self) -> http::request::Parts;
     }
 } }
@@ -34,10 +37,14 @@ pub mod tls { pub mod future {
 #[verifier::reject_recursive_types(T)]
 pub struct TlsTransportWrapper<T> { _p: std::marker::PhantomData<T> }
 impl<T: Transport> TlsTransportWrapper<T> {
-    /// `TlsTransportWrapper::call` (contract proved in unit `tls`: tls.never_plain, tls.sni_is_host, ...)
+    /// `TlsTransportWrapper::call` (contract proved in unit `tls`: tls.never_plain, tls.sni_is_host, tls.same_request, ...).
+    /// Parameter and result are named as in the real fn: the contract text below is checked against the proved contract by the
+    /// refinement wrapper `//@ refine link.tlsscheme.wrapper_call` in units/tls.vxu, where `dials()` / `tls_for()` are DEFINED
+    /// over the real `TlsConnectionFuture`.  (It used to say `f.tls_for() == parts` unconditionally - a ghost record of the
+    /// argument that no unit proves, and that cannot be defined for a future in state `Error`, which keeps nothing of the request.)
     #[verifier::external_body]
-    pub fn call(&mut self, parts: http::request::Parts) -> (f: tls::future::TlsConnectionFuture<T>)
-        ensures f.tls_for() == parts
+    pub fn call(&mut self, req: http::request::Parts) -> (r: tls::future::TlsConnectionFuture<T>)
+        ensures r.dials() ==> r.tls_for() == req
     { unimplemented!() }
     #[verifier::external_body]
     pub fn transport_mut(&mut self) -> (r: &mut T) { unimplemented!() }
